@@ -52,7 +52,12 @@ def stepC07 (fields : List String) : Option String :=
       let f := flags.toList
       let replace := f.getD 3 '0' == '1'
       let info : Extracted := ⟨← decodeList lic, ← decodeList cpr, ← decodeList con⟩
-      let text ← decodeText t
+      let text0 ← decodeText t
+      -- a leading byte order mark is set aside by add_header_to_file (Model.annotateFile); the theorem speaks
+      -- about the text behind it
+      let (bom, text) := match text0 with
+        | ch :: rest => if ch == bomChar then (true, rest) else (false, text0)
+        | [] => (false, [])
       match annotateText c replace (f.getD 4 '0' == '1') info text with
       | .written out =>
         let hyp0 := !c.merge && detectLineEnding text == ['\n'] && Spec.noIgnoreStart out
@@ -63,7 +68,7 @@ def stepC07 (fields : List String) : Option String :=
         let concl := Spec.declaresB c.normLic (extractRaw out) info.cpr info.lic &&
           (old.isEmpty || Spec.declaresB c.normLic (extractRaw out) (extractRaw old).cpr (extractRaw old).lic)
         pure ("H" ++ encodeBool (hyp0 && hypTags) ++ "|C" ++ encodeBool concl ++ "|P" ++ encodeList (extractRaw old).cpr ++ "|L" ++
-              encodeList (extractRaw old).lic ++ "|W:" ++ encodeText out)
+              encodeList (extractRaw old).lic ++ "|W:" ++ encodeText (if bom then bomChar :: out else out))
       | _ => pure "-"
   | ["c09step", style, flags, tmpl, cpr, con, lic, bad, t] => do
       -- hypotheses (Spec.stepGood, all decidable parts) and conclusion of C09_step_partial on this step
@@ -77,7 +82,10 @@ def stepC07 (fields : List String) : Option String :=
       let f := flags.toList
       let info : Extracted := ⟨← decodeList lic, ← decodeList cpr, ← decodeList con⟩
       let o : Spec.Op := { c := c, replace := f.getD 3 '0' == '1', skipExisting := f.getD 4 '0' == '1', info := info }
-      let text ← decodeText t
+      let text0 ← decodeText t
+      let text := match text0 with
+        | ch :: rest => if ch == bomChar then rest else text0
+        | [] => []
       match annotateText o.c o.replace o.skipExisting o.info text with
       | .written out =>
         let hypTags := match Spec.headerParts c o.replace info (Py.replace text ['\n'] ['\n']) with
